@@ -768,6 +768,13 @@ func (n *RegexNode) eliminateEndingBacktracking() {
 			continue
 
 		case NtCapture, NtConcatenate:
+			// A balancing group (?<-b>...) is not a transparent wrapper: it fails AFTER its
+			// content has matched when group b has no capture left, and the engine then has
+			// to backtrack into the content. Its content keeps its backtracking.
+			if node.T == NtCapture && node.N != -1 {
+				return
+			}
+
 			// For Capture and Concatenate, we just recur into their last child (only child in the case
 			// of Capture).  However, if the child is an alternation or loop, we can also make the
 			// node itself atomic by wrapping it in an Atomic node. Since we later check to see whether a
